@@ -64,6 +64,10 @@ BIN_OPS = [("+", "(void)(a + b);"), ("-", "(void)(a - b);"), ("==", "(void)(a ==
            ("floor_in", "(void)au::floor_in(UB{}, a);"), ("ceil_as", "(void)au::ceil_as(UB{}, a);"), ("ceil_in", "(void)au::ceil_in(UB{}, a);"),
            ("round_as<R>", "(void)au::round_as<R>(UB{}, a);"),
            ("will_overflow", "(void)au::will_conversion_overflow(a, UB{});"), ("is_lossy", "(void)au::is_conversion_lossy(a, UB{});")]
+# .data_in needs quantity-equivalent (not merely same-dimension) units for its twin
+DATA_OPS = [(".data_in", "(void)a.data_in(UB{});"), (".data_in-const", "const QA ca = a; (void)ca.data_in(UB{});"),
+            (".data_in-maker", "(void)a.data_in(au::QuantityMaker<UB>{});"), ("pt.data_in", "(void)pa.data_in(UB{});"),
+            ("pt.data_in-maker", "(void)pa.data_in(au::QuantityPointMaker<UB>{});")]
 FLOAT_OPS = [("hypot", "(void)au::hypot(a, b);"), ("fmod", "(void)au::fmod(a, b);"), ("remainder", "(void)au::remainder(a, b);"),
              ("arctan2", "(void)au::arctan2(a, b);")]
 INT_OPS = [("%", "(void)(a % b);")]
@@ -110,7 +114,7 @@ def check(run):
                 continue
             if (i >= ncore or j >= ncore) and rep != "double":
                 continue
-            ops = list(BIN_OPS) + (FLOAT_OPS if rep in core.F3 else INT_OPS) + POINT_OPS
+            ops = list(BIN_OPS) + (FLOAT_OPS if rep in core.F3 else INT_OPS) + POINT_OPS + DATA_OPS
             for name, stmt in ops:
                 add(probes, (name, "neg", ua.name, ub.name, rep), ua, ub, rep, stmt, "reject")
             if model.dim_key(ub.dim) != model.dim_key(model.vinv(ua.dim)):     # inverse needs dim(B) == 1/dim(A)
@@ -124,7 +128,7 @@ def check(run):
             if model.ordering_conflict([ua, ub]):
                 continue
             for rep in ("double", "float"):
-                for name, stmt in BIN_OPS + FLOAT_OPS + POINT_OPS:
+                for name, stmt in BIN_OPS + FLOAT_OPS + POINT_OPS + (DATA_OPS if model.same_quantity(ua, ub) else []):
                     add(probes, (name, "twin", ua.name, ub.name, rep), ua, ub, rep, stmt, "accept")
                 for name, stmt in CPP20_OPS + POINT20:
                     add(probes20, (name, "twin", ua.name, ub.name, rep), ua, ub, rep, stmt, "accept")
@@ -162,7 +166,11 @@ def check(run):
                    'vf_b("asg", std::is_assignable<%s &, %s>::value);' % (QB, QA),
                    'vf_b("pconv", std::is_convertible<%s, %s>::value);' % (PA, PB),
                    'vf_b("pctor", std::is_constructible<%s, %s>::value);' % (PB, PA),
-                   'vf_b("samedim", au::has_same_dimension(%s{}, %s{}));' % (ua.cpp, ub.cpp)]
+                   'vf_b("samedim", au::has_same_dimension(%s{}, %s{}));' % (ua.cpp, ub.cpp),
+                   'vf_b("qequiv", au::are_units_quantity_equivalent(%s{}, %s{}));' % (ua.cpp, ub.cpp),
+                   'vf_b("pequiv", au::are_units_point_equivalent(%s{}, %s{}));' % (ua.cpp, ub.cpp),
+                   'vf_b("qtequiv", au::AreQuantityTypesEquivalent<%s, %s>::value);' % (QA, QB.replace(rep, rep)),
+                   'vf_b("ptequiv", au::AreQuantityPointTypesEquivalent<%s, %s>::value);' % (PA, PB)]
             recs.append((rid, stm))
             meta[rid] = (ua, ub, rep, False)
             rid += 1
